@@ -96,9 +96,11 @@ pub fn spawn(
                                 .map(|seq| seq + 1)
                                 .collect();
 
+                        // Wait until the watermark has been advanced before acknowledging, so
+                        // that a read issued right after the acknowledgement sees the write
                         let _ = config
                             .confirmation_ref
-                            .tell(UpdateConfirmationWithBroadcast {
+                            .ask(UpdateConfirmationWithBroadcast {
                                 partition_id,
                                 versions: confirmation_versions.clone(),
                                 confirmation_count,
